@@ -383,3 +383,148 @@ def progs_this():
     from lib import progs
 
     return progs.THIS
+
+
+# ---------------------------------------------------------------------------
+# F4: storage locations (scalars, mappings, dynamic arrays, struct offsets, nestings) in several syntactic forms
+# ---------------------------------------------------------------------------
+def _k32(n: int) -> bytes:
+    return n.to_bytes(32, "big")
+
+
+def keccak_int(b: bytes) -> int:
+    from eth_hash.auto import keccak
+
+    return int.from_bytes(keccak(b), "big")
+
+
+def boundary_slots(limit=4, window=3):
+    """base slots p < 2^20 whose keccak(p) lies within `window` of a multiple of 2^16 (brute force, cached)"""
+    global _BOUNDARY
+    try:
+        return _BOUNDARY
+    except NameError:
+        pass
+    out = []
+    p = 0
+    while len(out) < limit and p < 400000:
+        h = keccak_int(_k32(p)) & 0xFFFF
+        if h >= 0x10000 - window or h < window:
+            out.append(p)
+        p += 1
+    _BOUNDARY = out
+    return out
+
+
+class G4(G):
+    """location = (items leaving the slot on the stack, description); memory 0..0x60 is scratch"""
+
+    def key(self):
+        r = self.r
+        k = r.random()
+        if k < 0.55:
+            i = r.randrange(self.ncd)
+            return [("PUSH", 4 + 32 * i), "CALLDATALOAD"], f"cd{i}"
+        if k < 0.7:
+            i = r.randrange(self.ncd)
+            c = r.choice([1, 2])
+            return [("PUSH", 4 + 32 * i), "CALLDATALOAD", ("PUSH", c), "ADD"], f"cd{i}+{c}"
+        c = r.choice([0, 1, 2, 3])
+        return [("PUSH", c)], str(c)
+
+    def index(self):
+        r = self.r
+        k = r.random()
+        if k < 0.45:
+            i = r.randrange(self.ncd)
+            return [("PUSH", 4 + 32 * i), "CALLDATALOAD", ("PUSH", 3), "AND"], f"cd{i}&3"
+        if k < 0.6:
+            i = r.randrange(self.ncd)
+            return [("PUSH", 4 + 32 * i), "CALLDATALOAD", ("PUSH", 0xFFFF), "AND"], f"cd{i}&0xffff"
+        c = r.choice([0, 1, 2, 3])
+        return [("PUSH", c)], str(c)
+
+    def base(self):
+        r = self.r
+        if r.random() < 0.25:
+            return r.choice(boundary_slots())
+        return r.choice([0, 1, 2, 3, 4])
+
+    def loc(self, depth=2):
+        r = self.r
+        kind = r.choice(["scalar", "map", "map", "arr", "arr", "arrc", "map2", "struct", "maparr", "arrmap"] if depth > 0
+                        else ["scalar", "map", "arr", "arrc"])
+        self.features.add(kind)
+        p = self.base()
+        if kind == "scalar":
+            return [("PUSH", p)], f"s{p}"
+        if kind == "map":
+            k, kd = self.key()
+            return k + ["PUSH0", "MSTORE", ("PUSH", p), ("PUSH", 32), "MSTORE", ("PUSH", 64), "PUSH0", "SHA3"], f"m{p}[{kd}]"
+        if kind == "map2":
+            k1, k1d = self.key()
+            k2, k2d = self.key()
+            inner = k1 + ["PUSH0", "MSTORE", ("PUSH", p), ("PUSH", 32), "MSTORE", ("PUSH", 64), "PUSH0", "SHA3"]
+            return inner + [("PUSH", 32), "MSTORE"] + k2 + ["PUSH0", "MSTORE", ("PUSH", 64), "PUSH0", "SHA3"], f"m{p}[{k1d}][{k2d}]"
+        if kind == "arr":
+            i, idesc = self.index()
+            h = [("PUSH", p), "PUSH0", "MSTORE", ("PUSH", 32), "PUSH0", "SHA3"]
+            return (h + i + ["ADD"]) if r.random() < 0.5 else (i + h + ["ADD"]), f"a{p}[{idesc}]"
+        if kind == "arrc":
+            # precomputed hash constant (as solc emits for fixed slots) plus offset
+            i, idesc = self.index()
+            self.preimages.append(_k32(p))
+            h = [("PUSH", keccak_int(_k32(p)), 32)]
+            if r.random() < 0.3:
+                c = r.choice([0, 1, 2, 3])
+                self.preimages.append(_k32(p))
+                return [("PUSH", (keccak_int(_k32(p)) + c) % (1 << 256), 32)], f"a{p}[{c}]const"
+            return (h + i + ["ADD"]) if r.random() < 0.5 else (i + h + ["ADD"]), f"a{p}[{idesc}]c"
+        if kind == "struct":
+            items, d = self.loc(depth - 1)
+            c = r.choice([0, 1, 2])
+            return (items + [("PUSH", c), "ADD"]) if r.random() < 0.6 else ([("PUSH", c)] + items + ["ADD"]), f"({d}).{c}"
+        if kind == "maparr":
+            # m[k] is a dynamic array: keccak(keccak(k . p)) + i
+            k, kd = self.key()
+            i, idesc = self.index()
+            inner = k + ["PUSH0", "MSTORE", ("PUSH", p), ("PUSH", 32), "MSTORE", ("PUSH", 64), "PUSH0", "SHA3"]
+            return inner + ["PUSH0", "MSTORE", ("PUSH", 32), "PUSH0", "SHA3"] + i + ["ADD"], f"m{p}[{kd}][[{idesc}]]"
+        if kind == "arrmap":
+            # a[i] is a mapping: keccak(k . (keccak(p) + i))
+            k, kd = self.key()
+            i, idesc = self.index()
+            elem = [("PUSH", p), "PUSH0", "MSTORE", ("PUSH", 32), "PUSH0", "SHA3"] + i + ["ADD"]
+            return elem + [("PUSH", 32), "MSTORE"] + k + ["PUSH0", "MSTORE", ("PUSH", 64), "PUSH0", "SHA3"], f"a{p}[{idesc}][{kd}]"
+        raise ValueError(kind)
+
+    def f4_storage(self, transient=False):
+        r = self.r
+        self.preimages = []
+        ST, LD = ("TSTORE", "TLOAD") if transient else ("SSTORE", "SLOAD")
+        nlocs = r.randint(2, 4)
+        locs = [self.loc() for _ in range(nlocs)]
+        # add a syntactic twin / neighbour of an existing location to provoke aliasing questions
+        items = []
+        desc = []
+        nst = r.randint(2, 4)
+        for s in range(nst):
+            li, ld = r.choice(locs)
+            k = r.random()
+            if k < 0.5:
+                v = [("PUSH", 4 + 32 * r.randrange(self.ncd)), "CALLDATALOAD"]
+            elif k < 0.8:
+                v = [("PUSH", r.choice([1, 7, 0xAB, (1 << 256) - 1]))]
+            else:
+                lj, _ = r.choice(locs)
+                v = lj + [LD, ("PUSH", 1), "ADD"]
+            items += v + li + [ST]
+            desc.append(f"{ST} {ld}")
+        nld = r.randint(2, 4)
+        for k in range(nld):
+            li, ld = r.choice(locs) if r.random() < 0.8 else self.loc(1)
+            items += li + [LD, ("PUSH", 0x400 + 32 * k), "MSTORE"]
+            desc.append(f"{LD} {ld}")
+        items += [("PUSH", 32 * nld), ("PUSH", 0x400), "RETURN"]
+        self.desc = desc
+        return items
